@@ -90,7 +90,8 @@ Proof. intros H. apply sview_bin_true in H. cbn [rlevel]. rewrite H. reflexivity
 
 Definition pfact (v : parm) : bool :=
   match v with
-  | PUnary pG pO pS pN => (pN =? prec_OpUnary) && (pS =? prec_OpUnary) && negb (is_postfix_op pO) && (prec_OpUnary <=? pG)
+  | PUnary pG pO pS pN =>
+      (pN =? (if is_update_op pO then prec_OpUpdate else prec_OpUnary)) && (pS =? prec_OpUnary) && negb (is_postfix_op pO) && (prec_OpUnary <=? pG)
   | PGroup pG pS => (pG =? prec_OpAssign) && (pS =? prec_OpExpr)
   | _ => true
   end.
@@ -197,6 +198,8 @@ Proof. intros H. apply (sview_sweep (compat s n)); [reflexivity|exact H]. Qed.
 
 Lemma compat_unary : forall inf t, compat prec_OpUnary prec_OpUnary (sview inf t) = true.
 Proof. apply compat_fixed. vm_compute. reflexivity. Qed.
+Lemma compat_update : forall inf t, compat prec_OpUnary prec_OpUpdate (sview inf t) = true.
+Proof. apply compat_fixed. vm_compute. reflexivity. Qed.
 Lemma compat_cond : forall inf t, compat prec_OpAssign prec_OpAssign (sview inf t) = true.
 Proof. apply compat_fixed. vm_compute. reflexivity. Qed.
 Lemma compat_comma : forall inf t, compat prec_OpAssign prec_OpExpr (sview inf t) = true.
@@ -215,7 +218,9 @@ Proof.
   destruct x; cbn [rlevel]; try exact I.
   - (* unary *)
     destruct (is_postfix_op op) eqn:Ep; [exact I|].
-    apply (G _ prec_OpUnary); [cbn [rlevel]; rewrite Ep; reflexivity|cbn [lvl]; rewrite Ep; reflexivity|apply compat_unary].
+    destruct (is_update_op op) eqn:Eu.
+    + apply (G _ prec_OpUpdate); [cbn [rlevel]; rewrite Ep; reflexivity|cbn [lvl]; rewrite Eu; reflexivity|apply compat_update].
+    + apply (G _ prec_OpUnary); [cbn [rlevel]; rewrite Ep; reflexivity|cbn [lvl]; rewrite Eu; reflexivity|apply compat_unary].
   - (* binary *)
     pose proof (compat_binary op inf (ty k)) as C. unfold open_of in C.
     destruct (sview true op) eqn:Ev; try exact I.
@@ -224,16 +229,16 @@ Proof.
   - apply (G _ prec_OpExpr); [reflexivity|reflexivity|apply compat_comma].
 Qed.
 
-(* the right-open level is not below the level of the node *)
-Lemma rlevel_ge_lvl t p : rlevel t = Some p -> lvl t <= p.
+(* the right-open level is not below the level of the node, except for a prefix update (level Update, operand Unary) *)
+Lemma rlevel_ge_lvl t p : rlevel t = Some p -> lvl t <= p \/ prec_OpUnary <= p.
 Proof.
   pose proof prec_order as PO.
   destruct t; cbn [rlevel lvl]; try discriminate.
-  - destruct (is_postfix_op op); [discriminate|]. intros HH; inversion HH. lia.
+  - destruct (is_postfix_op op); [discriminate|]. intros HH; inversion HH. right. lia.
   - unfold bin_level. pose proof (sfact_all true op) as SF. destruct (sview true op); try discriminate.
-    cbn [sfact] in SF. b2p. intros HH; inversion HH. lia.
-  - intros HH; inversion HH. lia.
-  - intros HH; inversion HH. lia.
+    cbn [sfact] in SF. b2p. intros HH; inversion HH. left. lia.
+  - intros HH; inversion HH. left. lia.
+  - intros HH; inversion HH. left. lia.
 Qed.
 
 Lemma rlevel_ge_assign t p : rlevel t = Some p -> prec_OpAssign <= p.
